@@ -98,6 +98,7 @@ type c14Eng struct {
 	refCount  map[*an.Func]int            // references as a value
 	refNodes  map[*ast.Ident]*an.Func     // references as a value that a dispatch table accounts for
 	skipSites map[string]string           // caller function name -> reason (entry-exception table)
+	accessors map[*an.Func]*c14Accessor   // memo of accessorOf (nil entry: not an accessor)
 	relevant  map[*an.Func]bool
 	changed   bool
 	debug     bool
@@ -735,6 +736,7 @@ type c14Fn struct {
 type c14Contrib struct {
 	callee *an.Func
 	arms   []*c14Facts
+	call   *ast.CallExpr // the call site (in the contributing function)
 }
 
 type c14Site struct {
@@ -743,6 +745,23 @@ type c14Site struct {
 	ok    bool
 	reach bool
 	msg   string
+	byPar *c14ParamIndex // index by a never-assigned parameter: decided per call site at report time
+}
+
+// c14ParamIndex: S[off+p] where p is the pos-th parameter of the function and is
+// never assigned in it (an accessor such as  func (c *Ctx) arg(i int) interface{}
+// { return c.Call.Args[i] }).  The operation is safe when every call site of
+// the function passes a constant c for p and, at that call site, len(S) > off+c
+// is established in every arm that reaches it.  This cannot be expressed in the
+// entry facts (their meet over the call sites forgets which constant goes with
+// which length), so the obligation is discharged per call site from the
+// contributions the callers emit (c14Report -> paramIndexOK).
+type c14ParamIndex struct {
+	key  string
+	off  int
+	pos  int    // position among the (flattened) parameters
+	name string // parameter name, for messages
+	den  bool   // the indexed slice belongs to the function's own transaction
 }
 
 func (e *c14Eng) fnOf(f *an.Func) *c14Fn {
@@ -991,8 +1010,108 @@ func (a *c14Fn) elem(x ast.Expr, depth int) (ref c14Ref, base ast.Expr, ok bool)
 		if rhs := a.singleDef(v); rhs != nil {
 			return a.elem(rhs, depth+1)
 		}
+	case *ast.CallExpr:
+		// an element accessor called with a constant:  ctx.arg(1)  is  ctx.Call.Args[1]
+		fs, known := a.calleesOf(s)
+		if !known || len(fs) == 0 || s.Ellipsis.IsValid() {
+			return
+		}
+		var acc *c14Accessor
+		for _, f := range fs {
+			x := a.e.accessorOf(f)
+			if x == nil || (acc != nil && *x != *acc) {
+				return
+			}
+			acc = x
+		}
+		if acc.pos >= len(s.Args) {
+			return
+		}
+		c, isC := c14ConstInt(a.info, s.Args[acc.pos])
+		if !isC {
+			return
+		}
+		// the carrier operand the element is read from: the receiver or the only carrier argument
+		var carrier ast.Expr
+		n := 0
+		if sel, isSel := ast.Unparen(s.Fun).(*ast.SelectorExpr); isSel {
+			if sl := a.info.Selections[sel]; sl != nil && sl.Kind() == types.MethodVal && a.e.carrierClass(a.info.TypeOf(sel.X)) != 0 {
+				carrier = sel.X
+				n++
+			}
+		}
+		for _, arg := range s.Args {
+			if a.e.carrierClass(a.info.TypeOf(arg)) != 0 {
+				carrier = arg
+				n++
+			}
+		}
+		if n != 1 {
+			return
+		}
+		return c14Ref{kind: 1, idx: acc.off + c}, carrier, true
 	}
 	return
+}
+
+// c14Accessor: the function returns <its transaction>.Args[off+p] on every
+// return, p being its pos-th parameter (an integer that is never assigned).
+type c14Accessor struct{ pos, off int }
+
+func (e *c14Eng) accessorOf(f *an.Func) *c14Accessor {
+	if acc, done := e.accessors[f]; done {
+		return acc
+	}
+	if e.accessors == nil {
+		e.accessors = map[*an.Func]*c14Accessor{}
+	}
+	e.accessors[f] = nil
+	if f == nil || f.Body == nil || f.Type == nil || f.Type.Results == nil || len(f.Type.Results.List) != 1 || len(f.Type.Results.List[0].Names) > 1 {
+		return nil
+	}
+	a := e.newFn(f)
+	if a == nil || a.multi || len(a.carr) != 1 {
+		return nil
+	}
+	own := c14NewLoc()
+	own.cur[a.carr[0]] = true
+	var acc *c14Accessor
+	ok, nret := true, 0
+	an.InspectShallow(f.Body, func(n ast.Node) bool {
+		rs, isRet := n.(*ast.ReturnStmt)
+		if !isRet {
+			return true
+		}
+		nret++
+		if len(rs.Results) != 1 {
+			ok = false
+			return false
+		}
+		ix, isIx := ast.Unparen(rs.Results[0]).(*ast.IndexExpr)
+		if !isIx {
+			ok = false
+			return false
+		}
+		k, off, base, has := a.slice(ix.X, 0)
+		pos := a.paramPos(a.varOf(ix.Index))
+		if !has || k != "Args" || pos < 0 || !a.denotes(base, own, 0) || (acc != nil && (acc.pos != pos || acc.off != off)) {
+			ok = false
+			return false
+		}
+		acc = &c14Accessor{pos: pos, off: off}
+		return true
+	})
+	if !ok || nret == 0 || acc == nil {
+		return nil
+	}
+	// the carrier parameter must still denote the function's transaction at the returns: never assigned
+	for _, nd := range a.g.Nodes {
+		if nd.Kind == an.KStmt && an.Assigns(a.info, nd.Ast, a.carr[0]) {
+			return nil
+		}
+	}
+	e.accessors[f] = acc
+	return acc
 }
 
 // disc recognises a discriminant expression (by shape and type).
